@@ -9,6 +9,7 @@ fn main() {
     "o14_3_num_eq_ieee" | "o14_3r_num_eq_ieee_residual" => c_num_eq_ieee(n(2), n(3)),
     "o14_4_num_eq_hash" => c_num_eq_hash(n(2), n(3)),
     "o14_5_num_vs_other" => c_num_vs_other(n(2)),
+    "o16_f64_cast_positive" => c_f64_cast_positive(n(2)),
     "o14_2_bool_nil" => c_bool_nil(n(2) != 0),
     "o14_7_eq_reflexive" => c_eq_reflexive(n(2)),
     "o14_6_falsey" => c_falsey_num(n(2)) && c_falsey_consts(),
